@@ -55,6 +55,7 @@ const (
 	opPrefix
 	opPrefixFull
 	numC05Ops
+	opNone = -1 // "no call yet" (the range of the start value itself)
 )
 
 var c05OpNames = []string{"NotNull", "NumberRangeLowerBound", "NumberRangeUpperBound", "Null", "NumberRangeInclusive",
@@ -71,6 +72,9 @@ type c05Call struct {
 }
 
 func (k c05Call) String() string {
+	if k.op == opNone {
+		return "(no refinement yet)"
+	}
 	switch k.op {
 	case opLower, opUpper:
 		b := k.num.String()
@@ -162,6 +166,8 @@ func (m *c05Model) admits(cd *c05Cand) bool {
 			return cd.num != nil && numCmp(cd.num, m.knownNum) == 0
 		case m.knownStr != nil:
 			return cd.str != nil && *cd.str == *m.knownStr
+		case m.t.K == KList || m.t.K == KSet || m.t.K == KMap:
+			return cd.length == m.knownLen // collOfLen is a function of (type, length)
 		}
 		return true // other known kinds: candidates are not compared exactly
 	}
@@ -555,6 +561,13 @@ func simC05Histories(c *Ctx) {
 	cands := c05Candidates(c, t)
 
 	startFP := fp(start)
+	if ustart, _ := start.Unmark(); m.known || m.startNull || m.dynamic {
+		c05CheckFixedRange(c, m, ustart, cands, "before any refinement")
+	} else {
+		// an unknown value nobody refined yet: nothing is excluded, nothing is reported
+		c05CheckSnapshot(c, m, start, start, cands, c05Call{op: opNone})
+		c.Probe("c05.unrefined-range")
+	}
 	b := start.Refine()
 	c.API("Value.Refine")
 	type snap struct {
@@ -706,12 +719,14 @@ func c05CheckSnapshot(c *Ctx, m *c05Model, start, v cty.Value, cands []*c05Cand,
 		if uv != cty.DynamicVal {
 			c.Fail("C05", "dynamic-refined", "dynamic-refined", "refining cty.DynamicVal returned %s", safeGoString(v))
 		}
+		c05CheckFixedRange(c, m, uv, cands, "after "+last.String())
 		return
 	}
 	if m.known || m.startNull {
 		if !uv.RawEquals(ustart) {
 			c.Fail("C05", "known-changed", "known-changed", "refining the known value %s returned %s", safeGoString(start), safeGoString(v))
 		}
+		c05CheckFixedRange(c, m, uv, cands, "after "+last.String())
 		return
 	}
 	// unknown start
@@ -832,6 +847,113 @@ func c05CheckSnapshot(c *Ctx, m *c05Model, start, v cty.Value, cands []*c05Cand,
 						"after %s the refined unknown Equals(%s) is False although %s is admitted\nmodel: %s", last, cd.desc, cd.desc, m.describe())
 				}
 			}
+		}
+	}
+}
+
+// c05CheckFixedRange judges what Range() reports for a value whose admitted set is fixed by the value itself:
+// a known value admits exactly itself, a null admits exactly null, cty.DynamicVal admits everything.
+func c05CheckFixedRange(c *Ctx, m *c05Model, uv cty.Value, cands []*c05Cand, when string) {
+	var r cty.ValueRange
+	if pan := catch(func() { r = uv.Range() }); pan != nil {
+		c.Fail("C05", "range-panic", "range:panic:Range", "%s: Range() of %s panicked: %v", when, safeGoString(uv), pan)
+		return
+	}
+	c.API("Value.Range")
+	acc := func(name string, f func()) bool {
+		if pan := catch(f); pan != nil {
+			c.Fail("C05", "range-panic", "range:panic:"+name, "%s: Range().%s of %s panicked: %v", when, name, safeGoString(uv), pan)
+			return false
+		}
+		return true
+	}
+	var notNull, couldNull bool
+	if !acc("DefinitelyNotNull", func() { notNull = r.DefinitelyNotNull() }) || !acc("CouldBeNull", func() { couldNull = r.CouldBeNull() }) {
+		return
+	}
+	if !r.TypeConstraint().Equals(uv.Type()) {
+		c.Fail("C05", "range-type", "range:type", "%s: Range().TypeConstraint() of %s is %#v", when, safeGoString(uv), r.TypeConstraint())
+	}
+	switch {
+	case m.dynamic:
+		c.Probe("c05.fixed-range:dynamic")
+		if notNull || !couldNull {
+			c.Fail("C05", "range-nullness", "range:nullness:dynamic", "%s: the range of cty.DynamicVal reports DefinitelyNotNull=%t CouldBeNull=%t", when, notNull, couldNull)
+		}
+		// it is not even known to be a number, a string or a collection: nothing may be reported
+		var lo, hi cty.Value
+		var pfx string
+		var ll, lu int
+		if acc("NumberLowerBound", func() { lo, _ = r.NumberLowerBound() }) && lo.IsKnown() && !lo.AsBigFloat().IsInf() {
+			c.Fail("C05", "range-bound", "range:lower-spurious:dynamic", "%s: the range of cty.DynamicVal reports the lower bound %s", when, safeGoString(lo))
+		}
+		if acc("NumberUpperBound", func() { hi, _ = r.NumberUpperBound() }) && hi.IsKnown() && !hi.AsBigFloat().IsInf() {
+			c.Fail("C05", "range-bound", "range:upper-spurious:dynamic", "%s: the range of cty.DynamicVal reports the upper bound %s", when, safeGoString(hi))
+		}
+		if acc("StringPrefix", func() { pfx = r.StringPrefix() }) && pfx != "" {
+			c.Fail("C05", "range-prefix", "range:prefix:dynamic", "%s: the range of cty.DynamicVal reports the prefix %+q", when, pfx)
+		}
+		if acc("LengthLowerBound", func() { ll = r.LengthLowerBound() }) && acc("LengthUpperBound", func() { lu = r.LengthUpperBound() }) && (ll != 0 || lu != math.MaxInt) {
+			c.Fail("C05", "range-length", "range:length:dynamic", "%s: the range of cty.DynamicVal reports length %d..%d", when, ll, lu)
+		}
+	case m.startNull:
+		c.Probe("c05.fixed-range:null")
+		if notNull || !couldNull {
+			c.Fail("C05", "range-nullness", "range:nullness:null", "%s: the range of a null value reports DefinitelyNotNull=%t CouldBeNull=%t", when, notNull, couldNull)
+		}
+	default:
+		c.Probe("c05.fixed-range:known")
+		if !notNull || couldNull {
+			c.Fail("C05", "range-nullness", "range:nullness:known", "%s: the range of the known value %s reports DefinitelyNotNull=%t CouldBeNull=%t", when, safeGoString(uv), notNull, couldNull)
+		}
+		switch {
+		case m.knownNum != nil:
+			var lo, hi cty.Value
+			var loInc, hiInc bool
+			if acc("NumberLowerBound", func() { lo, loInc = r.NumberLowerBound() }) && acc("NumberUpperBound", func() { hi, hiInc = r.NumberUpperBound() }) {
+				// the admitted set is {n}: n itself must lie inside what is reported, and what is reported is exactly [n, n]
+				if !lo.IsKnown() || !hi.IsKnown() || numCmp(lo.AsBigFloat(), m.knownNum) != 0 || numCmp(hi.AsBigFloat(), m.knownNum) != 0 || !loInc || !hiInc {
+					c.Fail("C05", "range-bound", "range:known-number", "%s: the range of the known number %s reports (%s, %t)..(%s, %t); it admits exactly that number",
+						when, safeGoString(uv), safeGoString(lo), loInc, safeGoString(hi), hiInc)
+				}
+			}
+		case m.knownStr != nil:
+			var pfx string
+			if acc("StringPrefix", func() { pfx = r.StringPrefix() }) && pfx != *m.knownStr {
+				sig := "range:known-string"
+				if !strings.HasPrefix(*m.knownStr, pfx) {
+					sig += ":not-a-prefix"
+				}
+				c.Fail("C05", "range-prefix", sig, "%s: the range of the known string %+q reports the prefix %+q; it admits exactly that string", when, *m.knownStr, pfx)
+			}
+		case m.t.K == KList || m.t.K == KSet || m.t.K == KMap:
+			var ll, lu int
+			if acc("LengthLowerBound", func() { ll = r.LengthLowerBound() }) && acc("LengthUpperBound", func() { lu = r.LengthUpperBound() }) && (ll != m.knownLen || lu != m.knownLen) {
+				c.Fail("C05", "range-length", "range:known-length", "%s: the range of a known %s of length %d reports length %d..%d", when, kindNames[m.t.K], m.knownLen, ll, lu)
+			}
+		}
+	}
+	for _, cd := range cands {
+		var inc cty.Value
+		if !acc("Includes", func() { inc = r.Includes(cd.v) }) {
+			continue
+		}
+		c.API("ValueRange.Includes")
+		if !inc.IsKnown() {
+			continue
+		}
+		adm := m.dynamic || m.admits(cd)
+		kind := "known"
+		if m.dynamic {
+			kind = "dynamic"
+		} else if m.startNull {
+			kind = "null"
+		}
+		if inc.False() && adm {
+			c.Fail("C05", "excluded-admitted", "includes:false-on-admitted:"+kind, "%s: Range().Includes(%s) of %s is False", when, cd.desc, safeGoString(uv))
+		}
+		if inc.True() && !adm {
+			c.Fail("C05", "included-excluded", "includes:true-on-excluded:"+kind, "%s: Range().Includes(%s) of %s is True", when, cd.desc, safeGoString(uv))
 		}
 	}
 }
